@@ -1,1 +1,222 @@
-//! C16
+//! C16 — rolling appender: the rotation decision puts a write into its period's file.
+//!
+//! What runs is the REAL `Inner::{should_rollover, advance_date}` and `Rotation::{next_date, round_date}` on a
+//! real `Inner` built by hook H3 without a file (directory / names / date format empty: they are not read by these
+//! functions). The decision sequence of `RollingFileAppender::write` / `make_writer`
+//! (`if let Some(cur) = should_rollover(now) { if advance_date(now, cur) { refresh_writer } }`) is transcribed in
+//! `step`; `refresh_writer` (file creation, pruning) is outside the claim.
+//!
+//! Oracle: `period_start(t) = t - t mod len` on unix seconds (UTC, no leap seconds), `len` = 60 / 3600 / 86400.
+//! Instants are `B + delta`: `B` a concrete base instant chosen by the generator (`gen_c16.py`, one harness per
+//! rotation kind and base), `delta` symbolic within +-2 periods, nanoseconds symbolic.
+use crate::common::*;
+use time::OffsetDateTime;
+use tracing_appender::__verif as v;
+use tracing_appender::rolling::Rotation;
+
+pub const MINUTELY: u8 = 0;
+pub const HOURLY: u8 = 1;
+pub const DAILY: u8 = 2;
+pub const NEVER: u8 = 3;
+
+/// 9999-12-31T23:59:59Z, the last instant `time` represents (without the `large-dates` feature)
+pub const MAX_TS: i64 = 253_402_300_799;
+
+pub fn rotation(kind: u8) -> Rotation {
+    match kind {
+        MINUTELY => Rotation::MINUTELY,
+        HOURLY => Rotation::HOURLY,
+        DAILY => Rotation::DAILY,
+        _ => Rotation::NEVER,
+    }
+}
+
+pub fn len_of(kind: u8) -> i64 {
+    match kind {
+        MINUTELY => 60,
+        HOURLY => 3600,
+        _ => 86400,
+    }
+}
+
+/// the oracle: start of the period that contains `t`
+pub fn period_start(t: i64, len: i64) -> i64 {
+    t - t.rem_euclid(len)
+}
+
+/// an instant with the given unix seconds and an arbitrary sub-second part
+pub fn instant(ts: i64) -> OffsetDateTime {
+    let ns: u32 = kani::any();
+    kani::assume(ns < 1_000_000_000);
+    let t = OffsetDateTime::from_unix_timestamp(ts).unwrap();
+    t.replace_nanosecond(ns).unwrap()
+}
+
+pub struct Window {
+    pub now: i64,
+    pub prev: i64,
+}
+
+/// `now = base + d`, `prev = base + d'`, both within +-2 periods of the base and inside the claimed range:
+/// at or after the epoch (`lo`) and such that `now + len` is still representable (`hi`).
+pub fn window(kind: u8, base: i64, backwards: bool) -> Window {
+    let len = len_of(kind);
+    let d: i64 = kani::any();
+    let dp: i64 = kani::any();
+    kani::assume(d >= -2 * len && d <= 2 * len);
+    kani::assume(dp >= -2 * len && dp <= 2 * len);
+    if backwards {
+        kani::assume(dp > d);
+    } else {
+        kani::assume(dp <= d);
+    }
+    let w = Window { now: base + d, prev: base + dp };
+    kani::assume(w.now >= 0 && w.prev >= 0);
+    kani::assume(w.now <= MAX_TS - len && w.prev <= MAX_TS - len);
+    w
+}
+
+/// One inductive step of the appender's state machine.
+/// Pre-state: the current file is the one of period `p` (the period of the previous write `prev`), and
+/// `next_date = p + len` — what `Inner::new` / the previous `advance_date` left behind (see `base_case`).
+pub struct Out {
+    pub rotated: bool,
+    pub now: i64,
+    pub prev: i64,
+    pub p: i64,
+    pub next: i64,
+    pub ps: i64,
+}
+
+pub fn step(kind: u8, base: i64, backwards: bool) -> Out {
+    let len = len_of(kind);
+    let w = window(kind, base, backwards);
+    let p = period_start(w.prev, len);
+    let next = p + len;
+    let inner = v::VInner::new(rotation(kind), next as usize);
+    let now = instant(w.now);
+
+    // --- the decision of RollingFileAppender::write / make_writer
+    let decision = inner.should_rollover(now);
+    let rotates = decision.is_some();
+    // rotates <=> the deadline has been reached
+    assert!(rotates == (w.now >= next));
+    if backwards {
+        // time stepping back (or standing still) never rotates
+        assert!(!rotates);
+    }
+    if w.now <= w.prev {
+        assert!(!rotates);
+    }
+    match decision {
+        Some(current) => {
+            assert!(current == next as usize);
+            let won = inner.advance_date(now, current);
+            // single writer: the compare-and-swap succeeds
+            assert!(won);
+            let nd = inner.next_date() as i64;
+            let ps = period_start(w.now, len);
+            // a jump over several periods rotates once and lands in now's period
+            assert!(nd == ps + len);
+            assert!(nd > w.now);
+            assert!(ps > p);
+            // one rotation per boundary: a second writer that saw the same deadline loses ...
+            assert!(!inner.advance_date(now, current));
+            assert!(inner.next_date() as i64 == nd);
+            // ... and whoever looks again at this instant does not rotate
+            assert!(inner.should_rollover(now).is_none());
+        }
+        None => {
+            // no rotation: the write belongs into the current file
+            assert!(inner.next_date() as i64 == next);
+            if w.now >= w.prev {
+                assert!(period_start(w.now, len) == p);
+            }
+        }
+    }
+    // the deadline is never the "never rotates" marker for a rotating appender
+    assert!(inner.next_date() != 0);
+    Out { rotated: rotates, now: w.now, prev: w.prev, p, next, ps: period_start(w.now, len) }
+}
+
+/// What `Inner::new` stores as the first deadline, and the rounding it is made of.
+pub fn base_case(kind: u8, base: i64) -> (i64, i64) {
+    let len = len_of(kind);
+    let w = window(kind, base, false);
+    let now = instant(w.now);
+    let ps = period_start(w.now, len);
+    let r = v::rotation_round_date(&rotation(kind), &now);
+    assert!(r.unix_timestamp() == ps);
+    assert!(r.nanosecond() == 0);
+    let n = v::rotation_next_date(&rotation(kind), &now);
+    match n {
+        Some(n) => {
+            assert!(n.unix_timestamp() == ps + len);
+            assert!(n.nanosecond() == 0);
+            assert!(n.unix_timestamp() as usize != 0);
+        }
+        None => assert!(false),
+    }
+    (w.now, ps)
+}
+
+// ------------------------------------------------------------------ hand-written companions
+
+/// NEVER: the deadline is 0, nothing ever rotates, and 0 is what the constructor computes.
+#[kani::proof]
+#[kani::unwind(2)]
+#[kani::stub(std::rt::thread_cleanup, noop)]
+#[kani::stub(core::fmt::write, fmt_write_stub)]
+fn c16_never() {
+    let ts: i64 = kani::any();
+    // any instant within two days of 2024-02-29T00:00:00Z
+    kani::assume(ts >= 1_709_164_800 - 172_800 && ts <= 1_709_164_800 + 172_800);
+    let now = instant(ts);
+    assert!(v::rotation_next_date(&Rotation::NEVER, &now).is_none());
+    let inner = v::VInner::new(Rotation::NEVER, 0);
+    assert!(inner.should_rollover(now).is_none());
+    // even if somebody asked, NEVER stores 0 again
+    assert!(inner.advance_date(now, 0));
+    assert!(inner.next_date() == 0);
+    assert!(inner.should_rollover(now).is_none());
+    kani::cover!(ts == 1_709_164_800);
+}
+
+/// vacuity twin
+#[kani::proof]
+#[kani::unwind(2)]
+#[kani::stub(std::rt::thread_cleanup, noop)]
+#[kani::stub(core::fmt::write, fmt_write_stub)]
+fn c16_reach() {
+    let w = window(HOURLY, 1_709_164_800, false);
+    let p = period_start(w.prev, 3600);
+    let inner = v::VInner::new(Rotation::HOURLY, (p + 3600) as usize);
+    let now = instant(w.now);
+    if let Some(c) = inner.should_rollover(now) {
+        if inner.advance_date(now, c) && inner.next_date() as i64 > w.now {
+            assert!(false);
+        }
+    }
+}
+
+/// Candidate finding (not part of the default list): instants before 1970. `unix_timestamp() as usize` wraps
+/// for negative timestamps, and a deadline of exactly 1970-01-01T00:00:00Z is stored as 0 = "never rotates".
+#[kani::proof]
+#[kani::unwind(2)]
+#[kani::stub(std::rt::thread_cleanup, noop)]
+#[kani::stub(core::fmt::write, fmt_write_stub)]
+fn c16_pre1970_minutely() {
+    let len = 60;
+    let d: i64 = kani::any();
+    let dp: i64 = kani::any();
+    kani::assume(d >= -120 && d <= 120 && dp >= -120 && dp <= d);
+    let (now_ts, prev_ts) = (d, dp);
+    let p = period_start(prev_ts, len);
+    let next = p + len;
+    // what the constructor stores for a file opened at `prev`
+    let first = v::rotation_next_date(&Rotation::MINUTELY, &instant(prev_ts)).unwrap();
+    assert!(first.unix_timestamp() == next);
+    let inner = v::VInner::new(Rotation::MINUTELY, first.unix_timestamp() as usize);
+    let rotates = inner.should_rollover(instant(now_ts)).is_some();
+    assert!(rotates == (now_ts >= next));
+}
